@@ -163,6 +163,36 @@ int_lerp_grid!(grid_u32, u32);
 int_lerp_grid!(grid_i64, i64);
 int_lerp_grid!(grid_u64, u64);
 
+/// Rounding to nearest, checked in exact integer arithmetic on the 17-point grid x = k/16 (bounded
+/// in x, every a and b of the type): 16*r is within 8 of a*(16-k) + b*k.  Cheap enough for the
+/// quick tier; catches wrong rounding modes (floor/trunc/ceil, sign-dependent rounding).
+macro_rules! nearest_on_grid16 {
+    ($name:ident, $t:ty) => {
+        #[kani::proof]
+        pub(crate) fn $name() {
+            let a: $t = kani::any();
+            let b: $t = kani::any();
+            let k: u8 = kani::any();
+            kani::assume(k <= 16);
+            kani::assume((a as i128) > -4096 && (a as i128) < 4096 && (b as i128) > -4096 && (b as i128) < 4096);
+            let x = k as f32 / 16.0;
+            let r = a.lerp(&b, x) as i128;
+            let exact16 = (a as i128) * (16 - k as i128) + (b as i128) * (k as i128);
+            let d = 16 * r - exact16;
+            assert!(d >= -8 && d <= 8, "integer lerp is the real interpolation rounded to nearest");
+        }
+    };
+}
+nearest_on_grid16!(nearest_grid16_i8, i8);
+nearest_on_grid16!(nearest_grid16_u8, u8);
+nearest_on_grid16!(nearest_grid16_i16, i16);
+nearest_on_grid16!(nearest_grid16_u16, u16);
+nearest_on_grid16!(nearest_grid16_i32, i32);
+nearest_on_grid16!(nearest_grid16_u32, u32);
+nearest_on_grid16!(nearest_grid16_i64, i64);
+nearest_on_grid16!(nearest_grid16_u64, u64);
+nearest_on_grid16!(nearest_grid16_usize, usize);
+
 // -- floats --------------------------------------------------------------------------------
 
 /// f32: endpoints exact for finite operands (the form a(1-x)+bx at x = 0 and x = 1).
